@@ -35,6 +35,13 @@ type c15Case struct {
 	Deadline bool            `json:"deadline"` // expiry instead of cancel()
 	// Cause: the context is cancelled / expires with a caller-supplied cause (context.WithCancelCause, WithTimeoutCause); ctx.Err() is still Canceled / DeadlineExceeded.
 	Cause bool `json:"cause,omitempty"`
+	// DoCause (with Cause): the transport's Do fails with the cause rather than
+	// with ctx.Err(), as net/http's HTTP/1.1 transport does.
+	DoCause bool `json:"do_cause,omitempty"`
+	// ErrBodyCut (Connect unary): the peer answers 503 with the beginning of a
+	// JSON error body and goes quiet; the context ends while the client is
+	// reading that body.
+	ErrBodyCut bool `json:"err_body_cut,omitempty"`
 	HRecv int  `json:"hrecv"`
 	HSend int  `json:"hsend"`
 	Bound int  `json:"bound"`
@@ -79,6 +86,12 @@ func (k c15Case) key() string {
 	}
 	if k.Cause {
 		x += "+cause"
+	}
+	if k.DoCause {
+		x += "+do-returns-cause"
+	}
+	if k.ErrBodyCut {
+		x += "+error-body-cut"
 	}
 	if k.RR {
 		x += "+rr"
@@ -172,7 +185,19 @@ func c15Body(k c15Case, s *bsched.Sched) any {
 		obs.HandlerErr = ctx.Err().Error()
 		return ctx.Err()
 	})
-	tr := &memhttp.Transport{Handler: h, Proto: 2, ReqMode: k.ReqMode, Gate: s.Gate, PromptCancel: k.Ideal, ReqChunk: k.Chunk}
+	var hh http.Handler = h
+	if k.ErrBodyCut {
+		hh = http.HandlerFunc(func(w http.ResponseWriter, r *http.Request) {
+			w.Header().Set("Content-Type", "application/json")
+			w.WriteHeader(http.StatusServiceUnavailable)
+			_, _ = w.Write([]byte(`{"code":"not_found","mess`))
+			w.(http.Flusher).Flush()
+			<-r.Context().Done()
+			obs.HandlerSawCtx = true
+			obs.HandlerErr = r.Context().Err().Error()
+		})
+	}
+	tr := &memhttp.Transport{Handler: hh, Proto: 2, ReqMode: k.ReqMode, Gate: s.Gate, PromptCancel: k.Ideal, ReqChunk: k.Chunk, CauseFromDo: k.DoCause}
 	var ctx context.Context
 	var cancel context.CancelFunc
 	var extra []connect.ClientOption
@@ -432,6 +457,27 @@ func c15Cases(thorough bool) []c15Case {
 		if k.ReqMode == memhttp.ReqEager {
 			k.Ideal = true
 			out = append(out, k)
+		}
+	}
+	// contexts ended with a cause, over a transport whose Do reports the cause (net/http's HTTP/1.1 one)
+	for _, k := range append([]c15Case(nil), out...) {
+		if k.Cause && !k.Ideal && !k.RR {
+			k.DoCause = true
+			out = append(out, k)
+		}
+	}
+	// ... and for the single-request kinds
+	for _, p := range AllProtos {
+		for _, dl := range []bool{false, true} {
+			for _, kind := range []Kind{KUnary, KClient, KServer} {
+				out = append(out, c15Case{Proto: p, Kind: kind, ReqMode: memhttp.ReqEager, Client: "fixed", Deadline: dl, Cause: true, DoCause: true, HRecv: 0, HSend: 0, Bound: 1})
+			}
+		}
+	}
+	// a unary Connect error response that stops in the middle of its body
+	for _, dl := range []bool{false, true} {
+		for _, ideal := range []bool{false, true} {
+			out = append(out, c15Case{Proto: PConnect, Kind: KUnary, ReqMode: memhttp.ReqEager, Client: "fixed", Deadline: dl, Ideal: ideal, ErrBodyCut: true, Bound: 2})
 		}
 	}
 	// the context that ends is one a client interceptor substituted for the caller's
